@@ -25,7 +25,7 @@ def inputs(tier, seed):
         ex += ["".join(rng.choice(L.ALPHABET) for _ in range(rng.randint(4, 7))) for _ in range(12000)]
         samp = L.sampled(rng, 5000, 12)
     longs = ["@" * 5000, "'" + "a" * 300, "\\\n" * 300 + "x", "\"" + "\\\n" * 200, "(" * 2000, "??/\n" * 150 + "y",
-             "/*" + "\\\n" * 150 + "*/ z", "0x" + "f" * 3000, "a" * 4000, "\t" * 500 + "x"]
+             "/*" + "\\\n" * 150 + "*/ z", "0x" + "f" * 3000, "a" * 4000, "\t" * 500 + "x"] + L.pathological()
     corpus = load_corpus()
     _cache[key] = (corpus, ex, samp, longs)
     return _cache[key]
